@@ -17,9 +17,13 @@ def run(ctx):
                       {"build_output": out[-4000:]}, failing_input=False)
         return ctx.finish()
     vlib.seq_differential(ctx, ParDoSpec(), exe, proofs_ok, tag="pardo")
+    if ctx.tier == "thorough":
+        vlib.patience_part(ctx, ParDoSpec(), exe, proofs_ok, tag="pardo")
     okS, outS, exeS = vlib.build_runner()
     if okS:
         vlib.seq_differential(ctx, ScaleSpec(['do']), exeS, proofs_ok, tag="scale")
+    else:
+        ctx.violation("harness-build", "the harness does not build against the current tree: " + outS[-1500:], {"build_output": outS[-4000:]}, failing_input=False)
     vlib.merge_parts(ctx, "cases = controller scripts (call one of Do/DoContext/Map/MapContext with chosen n, parallelism, GOMAXPROCS, "
                      "gated and failing indices; release gates in a chosen order; cancel the caller's context before/mid-flight; quiesce) "
                      "run against the real package; each recorded history (call/ret, enter/exit of every f(i) with the context state seen at entry) "
